@@ -47,6 +47,8 @@ def run(ctx):
     ctx.distinct = ac.distinct(progs)
     ac.mc_corpus(ctx, progs[::3] if not th else progs, pieces=10)
     ac.judge(ctx, progs, "c10")
+    ac.judge(ctx, progs[::2], "c10chk", profile="checked")     # also on the build with integer-overflow checks
+    ctx.extra["builds"] = ["release", "checked (overflow checks + debug assertions) for a sample"]
     return vlib.finish(ctx, rule="descriptors: every kind with all flag combinations (cacheability x rw, consumer/edge/polarity/"
                        "shared, translation present/absent), extreme and random ranges with min <= max and representable size; "
                        "templates: all kind sequences of length 0..3 plus random templates to 300 descriptors (total size across "
